@@ -276,6 +276,7 @@ pub fn extra_reader_scenarios(seed: u64) -> Vec<c09::Scn> {
         pw: None,
         stream: true,
         aes: false,
+        damaged: false,
     });
     v.push(c09::Scn {
         label: "long-comment-3000".into(),
@@ -283,6 +284,7 @@ pub fn extra_reader_scenarios(seed: u64) -> Vec<c09::Scn> {
         pw: None,
         stream: false,
         aes: false,
+        damaged: false,
     });
     v.push(c09::Scn {
         label: "data-descriptors".into(),
@@ -290,6 +292,7 @@ pub fn extra_reader_scenarios(seed: u64) -> Vec<c09::Scn> {
         pw: None,
         stream: false,
         aes: false,
+        damaged: false,
     });
     v
 }
